@@ -696,6 +696,19 @@ pub fn library() -> &'static Vec<Pkg> {
                 is_component: true,
             });
         }
+        for (name, version, world, deps) in WIT_COMPONENTS_6 {
+            let bytes = build_wit(world, deps)
+                .unwrap_or_else(|e| panic!("corpus component {name} does not build: {e:?}"));
+            let (imports, exports) = names_of(&bytes);
+            v.push(Pkg {
+                name,
+                version: *version,
+                bytes,
+                imports,
+                exports,
+                is_component: true,
+            });
+        }
         v
     })
 }
@@ -822,6 +835,23 @@ const WAT_COMPONENTS_5: &[(&str, Option<&str>, &str)] = &[
   (import "z" (func))
   (export "x-out" (func 0))
 )"#,
+    ),
+];
+
+/// Sixth generation: toolchain-made components whose world `use`s a resource of an imported
+/// interface and has world-level functions over it.
+const WIT_COMPONENTS_6: &[(&str, Option<&str>, &str, &[&str])] = &[
+    (
+        "test:res-user",
+        None,
+        "package t:w;\ninterface i { resource r { constructor(a: u32); get: func() -> u32; } mk: func() -> r; }\nworld w { use i.{r}; import use-r: func(x: borrow<r>); import take-r: func(x: r) -> r; export run: func(); }",
+        &[],
+    ),
+    (
+        "test:res-exporter",
+        None,
+        "package t:x;\ninterface i { resource r { constructor(a: u32); get: func() -> u32; } mk: func() -> r; }\nworld w { export i; import log: func(m: string); }",
+        &[],
     ),
 ];
 
